@@ -200,7 +200,7 @@ def render(prog, wrapper):
     if wrapper != "generator":
         L.append(f"{ind}    if DEPTH[0]:")
         L.append(f"{ind}        LOG.append(f'R{{x}}k{{k}}')")
-        L.append(f"{ind}        return x + 10 + 1000 * k")
+        L.append(f"{ind}        return x + 10 + 3 * k")
     L.append(f"{ind}    DEPTH[0] += 1")
     L.append(f"{ind}    try:")
     for p in R.prelude:
@@ -215,7 +215,7 @@ def render(prog, wrapper):
         L.append("    return m_top")
     L.append(f"def m_next({slf}x: int{extra_pos}, *, k: int = 0{extra_kw}):")
     L.append("    LOG.append(f'N{x}k{k}')")
-    L.append("    return x + 100 + 1000 * k")
+    L.append("    return x + 100 + 3 * k")
     return "\n".join(L) + "\n", offset
 
 
